@@ -1304,6 +1304,10 @@ func call(n *node) {
 	// Compute output argument value functions.
 	rtypes := c0.typ.ret
 	rvalues := make([]func(*frame) reflect.Value, len(rtypes))
+	// direct[i] is true if the callee stores its result i directly in the destination.
+	// Otherwise the result variables of the callee are its own, zero at entry, and
+	// the destinations are assigned when the call returns.
+	direct := make([]bool, len(rtypes))
 	switch n.anc.kind {
 	case defineXStmt, assignXStmt:
 		l := n.level
@@ -1314,6 +1318,7 @@ func call(n *node) {
 				// Skip assigning return value to blank var.
 			case isInterfaceSrc(c.typ) && !isEmptyInterface(c.typ) && !isInterfaceSrc(rtypes[i]):
 				rvalues[i] = genValueInterfaceValue(c)
+				direct[i] = true
 			default:
 				j := n.findex + i
 				rvalues[i] = func(f *frame) reflect.Value { return getFrame(f, l).data[j] }
@@ -1422,7 +1427,7 @@ func call(n *node) {
 
 		// Init return values
 		for i, v := range rvalues {
-			if v != nil {
+			if v != nil && direct[i] {
 				nf.data[i] = v(f)
 			} else {
 				nf.data[i] = reflect.New(def.types[i]).Elem()
@@ -1480,7 +1485,7 @@ func call(n *node) {
 
 		// Set return values
 		for i, v := range rvalues {
-			if v != nil {
+			if v != nil && !direct[i] {
 				v(f).Set(nf.data[i])
 			}
 		}
